@@ -78,8 +78,25 @@ func c16TimeSim(r *simcore.Run) {
 			r.Fail("infra", "create-finalizer", "%v\n%s", err, buf.String())
 			return
 		}
+		// a second finalizer of the catalogue uses the same key store under another issuer name
+		fins := []struct {
+			f   Finalizer
+			iss string
+		}{{fin, "sim-issuer"}}
+		if s.Draw(2, "second-finalizer-on-the-key-store") == 1 {
+			conf2 := map[string]any{"signer": map[string]any{"name": "sim-issuer-b", "key_store": map[string]any{"path": path}}, "ttl": ttl.String()}
+			fin2, err := CreatePrototype(&c16CreationCtx{w: sw, khr: reg, co: certificate.NewObserver()}, "jwtfin-b", FinalizerJwt, conf2)
+			if err != nil {
+				r.Fail("infra", "create-finalizer-b", "%v", err)
+				return
+			}
+			fins = append(fins, struct {
+				f   Finalizer
+				iss string
+			}{fin2, "sim-issuer-b"})
+		}
 		mgmt := management.VerifNewHandler(reg)
-		r.Logf("key store: %d entries, certificate lifetimes %v s, ttl %s", n, lifetimes, ttl)
+		r.Logf("key store: %d entries, certificate lifetimes %v s, ttl %s, %d finalizers", n, lifetimes, ttl, len(fins))
 		at := 0
 		crossed := false
 		for step := 0; step < 3+s.Draw(5, "steps"); step++ {
@@ -97,6 +114,8 @@ func c16TimeSim(r *simcore.Run) {
 					crossed = true
 				}
 			}
+			which := fins[step%len(fins)]
+			fin := which.f
 			hc := &c16Ctx{ctx: cache.WithContext(context.Background(), &noop.Cache{}), headers: http.Header{}, outputs: map[string]any{}}
 			t0 := time.Now().Unix()
 			if err := fin.Execute(hc, &subject.Subject{ID: "alice", Attributes: map[string]any{}}); err != nil {
@@ -127,6 +146,10 @@ func c16TimeSim(r *simcore.Run) {
 			r.Logf("+%ds: token kid=%s, %d published keys, verified=%v", at, kid, len(set.Keys), verified)
 			if !verified {
 				r.Fail("token-not-verifiable-with-published-keys", "jwt-finalizer/over-time", "at +%ds (certificate lifetimes %v s, no reload): the token names key %q, the published key set holds %d keys and none with that id verifies it", at, lifetimes, kid, len(set.Keys))
+				return
+			}
+			if claims["iss"] != which.iss {
+				r.Fail("system-claim-wrong", "iss", "at +%ds: iss=%v, the finalizer's signer is named %q", at, claims["iss"], which.iss)
 				return
 			}
 			iat, _ := claims["iat"].(float64)
